@@ -413,7 +413,7 @@ def run(tier):
     t = core.Tally()
     pool = core.Pool(0)
     try:
-        pool.run([(MOD, "job", {"items": c}) for c in core.chunks(items[::-1], core.NPROC * 12)], into=t)
+        pool.run([(MOD, "job", {"items": c}) for c in core.chunks(items[::-1], core.NPROC * 12)] + [("mc.capacity", "job", {"pid": "C08"})], into=t)
         sem_states = t.c["states"]
         events = pool.call(MOD, "e3_events")
         depth = 4 if tier == "quick" else 5
@@ -435,7 +435,7 @@ def run(tier):
         "bounds": {"semantic_trees": len(items), "semantic_states": sem_states, "history_depth": depth, "cache_states": t.c["states"] - sem_states},
     }
     return {"tally": t, "coverage": cov,
-            "guards": ("nontrivial", "many_matches", "strict_raises:ChildResolverError", "strict_raises:RootResolverError",
+            "guards": ("capacity_checks", "nontrivial", "many_matches", "strict_raises:ChildResolverError", "strict_raises:RootResolverError",
                        "strict_raises:ResolverError", "get_agreement_checked", "calls_after_fill", "calls_after_colliding_pattern",
                        "states_with_full_cache", "merged_states"),
             "assumptions": ["'**' directly after the leading separator is excluded (the statement does not say whether the root "
